@@ -100,24 +100,47 @@ class Graph:
 def run(facts):
     res = Result("A22", "no function that receives `&mut BytesMut` reaches a byte-buffer allocation except through the reservation helper (resolved call graph, "
                         "cut at the helper): appends, resizes and merges get their room from `reserve`, whose behaviour A15 / A8 decide")
-    b0 = reserve_helper(facts)
-    if b0 is None:
-        l = facts.by_id.get("bytes_mut::BytesMut::reserve", [])
+    from .inline import callers_of
+    want = "&mut " + HANDLE
+
+    def takes_handle(b):
+        return b.arg_count >= 1 and (b.locals[1]["ty"].replace("'_ ", "").replace("&'a mut", "&mut") == want or
+                                     (b.locals[1]["ty"].startswith("&") and b.locals[1]["ty"].endswith("mut " + HANDLE)))
+    entries = []
+    for name in ("reserve", "try_reclaim"):
+        l = facts.by_id.get("bytes_mut::BytesMut::" + name, [])
         if len(l) != 1:
-            raise RuleError("neither the reservation helper nor BytesMut::reserve found")
-        b0 = l[0]
-    cut = {b0.did}
+            raise RuleError("BytesMut::%s not found" % name)
+        entries.append(l[0])
+    # the reservation machinery: the helper recognised by its shape (A8), and every private function on a handle that is only ever
+    # called from the machinery or from its two public entry points (`reserve_inner_vec`, `grow_unshared_vec`, ..)
+    b0 = reserve_helper(facts)
+    cut = {b0.did} if b0 is not None else set()
+    allowed = {e.did for e in entries}
+    changed = True
+    while changed:
+        changed = False
+        for b in facts.fn_bodies():
+            if b.did in cut or b.did in allowed or b.kind not in ("fn", "assoc_fn") or not takes_handle(b) or str(b.vis) == "Public" or facts.is_test(b):
+                continue
+            cs = [c for c in callers_of(facts, b.did) if not facts.is_test(c)]
+            if cs and all(c.did in cut or c.did in allowed or (c.parent_did in cut) for c in cs):
+                cut.add(b.did)
+                changed = True
+    if not cut:
+        raise RuleError("no reservation helper found behind BytesMut::reserve / try_reclaim")
+    if b0 is None:
+        b0 = max((facts.by_did[d] for d in cut), key=lambda x: len(x.blocks))
     g = Graph(facts)
     n_roots = 0
-    want = "&mut " + HANDLE
     for b in facts.fn_bodies():
         if facts.is_test(b) or b.kind not in ("fn", "assoc_fn") or b.did in cut or b.arg_count < 1:
             continue
-        if b.locals[1]["ty"].replace("'_ ", "").replace("&'a mut", "&mut") != want and not (b.locals[1]["ty"].startswith("&") and b.locals[1]["ty"].endswith("mut " + HANDLE)):
+        if not takes_handle(b):
             continue
         n_roots += 1
         found = g.reach(b, cut)
-        key = "%s|grows only through %s" % (b.id, b0.id.rsplit("::", 1)[-1])
+        key = "%s|grows only through the reservation helper" % b.id
         if found:
             (sb, bi, lab), chain = found[0]
             res.bad(key, sb.loc(bi), "reaches %s without going through %s (%s): a buffer obtained outside the reservation helper bypasses the reclaim / amortised-growth "
@@ -135,5 +158,6 @@ def run(facts):
                     pos = len(g.reach(facts.by_did[it["did"]], cut))
     res.floor("allocation sites seen from <BytesMut as Clone>::clone (positive example)", pos, 1)
     # and the helper itself must contain the allocations that A15 judges
-    res.floor("allocation sites inside the reservation helper", len(g.reach(b0, set())), 2)
+    res.floor("allocation sites inside the reservation machinery", sum(len(g.direct(facts.by_did[d])[0]) for d in cut), 2)
+    res.notes.append("reservation machinery: %s" % sorted(facts.by_did[d].id.rsplit("::", 1)[-1] for d in cut))
     return res
